@@ -382,6 +382,13 @@ func logCorpus() []logBatch {
 	// interleaving
 	out = append(out, logBatch{recs: []sdklog.Record{mk(1, res1, scA).newRecord(), mk(2, res3, scA).newRecord(), mk(3, res1, scB).newRecord(),
 		mk(4, res3, scA).newRecord(), mk(5, res1, scA).newRecord(), mk(6, res3, nil).newRecord()}, nres: 2, nscopes: 3})
+	// scopes that differ in exactly one field under one resource
+	scV := &instrumentation.Scope{Name: "lib/a", Version: "v2", SchemaURL: "urn:s"}
+	scU := &instrumentation.Scope{Name: "lib/a", Version: "v1"}
+	scT1 := &instrumentation.Scope{Name: "lib/a", Version: "v1", SchemaURL: "urn:s", Attributes: attribute.NewSet(attribute.String("tenant", "a"))}
+	scT2 := &instrumentation.Scope{Name: "lib/a", Version: "v1", SchemaURL: "urn:s", Attributes: attribute.NewSet(attribute.String("tenant", "b"))}
+	out = append(out, logBatch{recs: []sdklog.Record{mk(1, res1, scA).newRecord(), mk(2, res1, scV).newRecord(), mk(3, res1, scU).newRecord(),
+		mk(4, res1, scT1).newRecord(), mk(5, res1, scT2).newRecord(), mk(6, res1, scT1).newRecord(), mk(7, res1, scA).newRecord()}, nres: 1, nscopes: 5})
 	// severity table and ids
 	var recs []sdklog.Record
 	for s := 0; s <= 24; s += 3 {
